@@ -329,6 +329,14 @@ def semantic_variants(case, info, rnd):
         out.append(c)
     for _ in range(2):
         insert(rnd.choice(['  zzq 5', '  qqz', '  zzq a, 3', '  .bite 5', '  .fil 2, 1']), 'E2-unknown-instruction')
+    # the offending statement as the very last line of a file that does not end with a newline
+    for line, tag in ((rnd.choice(e1_forms[:3]), 'E1-unresolved-label'), ('  zzq 5', 'E2-unknown-instruction')):
+        c = copy.deepcopy(case)
+        c['inject'] = {'pos': n + 5, 'line': line}
+        c['no_trailing_nl'] = True
+        c['expect_fail'] = tag + '-last-line-no-newline'
+        c['mutation'] = {'kind': 'last-line'}
+        out.append(c)
     # E1 by renaming an existing reference
     labels = [m.group(1) for ln in prog for m in [re.match(r'^(\w+):', ln)] if m]
     for lab in labels[:2]:
@@ -377,6 +385,14 @@ def semantic_variants(case, info, rnd):
                 t = rnd.choice([lit + ']', lit + '}', '2+]3', lit + ']]', '{' + lit, lit + '[0]'])
             texts[idx] = t
             insert(f'  {m} ' + ', '.join(texts), 'E3-garbled-brackets')
+        # stray commas change the number of operands
+        for _ in range(2):
+            m, ops = rnd.choice(num_ops)
+            texts = [pg1.operand(k) for k in ops]
+            form = rnd.randrange(3)
+            joined = ', '.join(texts)
+            joined = [joined + ',', ',' + joined, joined.replace(',', ',,', 1) if ',' in joined else joined + ', ,'][form]
+            insert(f'  {m} {joined}', 'E3-stray-comma')
     # E4: value the field cannot hold (only for numeric kinds that appear alone, to keep the statement well-formed)
     width = info['width']
     cands = []
